@@ -186,11 +186,13 @@ theorem pydiv_pos (a : Int) {i : Int} (h : 0 < i) : pydiv a i = a / i :=
 
 /-- **`create_emsg_boxes` computes the schedule restricted to the segment.** -/
 theorem emsgEvents_spec (s : Sched) (hin : s.inband = true) (hi : 0 < s.interval) (a b : Int)
+    (hmax : (b - a) / s.interval ≤ maxEventsPerSegment)
     (fuel : Nat) (hf : emsgFuel s b ≤ fuel) :
     emsgEvents s a b fuel = .ok (scheduled s a b) := by
   unfold emsgEvents scheduled
   have hi' : ¬ s.interval < 1 := by omega
-  simp only [hin, Bool.not_true, Bool.false_eq_true, if_false, hi']
+  have hmax' : ¬ pydiv (b - a) s.interval > maxEventsPerSegment := by rw [pydiv_pos _ hi]; omega
+  simp only [hin, Bool.not_true, Bool.false_eq_true, if_false, hi', hmax']
   have fA := firstIdx_nonneg s hi a
   have fB := firstIdx_nonneg s hi b
   by_cases h1 : s.start ≥ b
@@ -245,6 +247,39 @@ theorem emsgEvents_spec (s : Sched) (hin : s.inband = true) (hi : 0 < s.interval
       have e : max e0 (firstIdx s a) = firstIdx s a := by omega
       rw [e, idRange_cap_lo]
       rfl
+
+/-- the four outcomes of `create_emsg_boxes` -/
+theorem createEmsg_cases (s : Sched) (repTs : Int) (g : Seg) :
+    (s.inband = false ∧ createEmsg s repTs g = .ok []) ∨
+    (s.inband = true ∧ s.interval < 1 ∧ createEmsg s repTs g = .valueError) ∨
+    (s.inband = true ∧ 0 < s.interval ∧
+      (segEnd s repTs g - segStart s repTs g) / s.interval > maxEventsPerSegment ∧
+      createEmsg s repTs g = .valueError) ∨
+    (s.inband = true ∧ 0 < s.interval ∧
+      (segEnd s repTs g - segStart s repTs g) / s.interval ≤ maxEventsPerSegment ∧
+      createEmsg s repTs g = .ok ((scheduled s (segStart s repTs g) (segEnd s repTs g)).map
+        (mkEmsg s (segStart s repTs g)))) := by
+  unfold createEmsg
+  cases hin : s.inband with
+  | false => left; simp [emsgEvents, hin]
+  | true =>
+    right
+    by_cases hi : 0 < s.interval
+    · right
+      by_cases hmax : (segEnd s repTs g - segStart s repTs g) / s.interval ≤ maxEventsPerSegment
+      · right
+        refine ⟨rfl, hi, hmax, ?_⟩
+        simp only [emsgEvents_spec s hin hi _ _ hmax _ (Nat.le_refl _)]
+      · left
+        refine ⟨rfl, hi, by omega, ?_⟩
+        have hi' : ¬ s.interval < 1 := by omega
+        have h2 : pydiv (segEnd s repTs g - segStart s repTs g) s.interval > maxEventsPerSegment := by
+          rw [pydiv_pos _ hi]; omega
+        simp only [emsgEvents, hin, Bool.not_true, Bool.false_eq_true, if_false, hi', h2, if_true]
+    · left
+      have hi' : s.interval < 1 := by omega
+      refine ⟨rfl, hi', ?_⟩
+      simp only [emsgEvents, hin, Bool.not_true, Bool.false_eq_true, if_false, hi', if_true]
 
 /-! ### characterisation of `scheduled` -/
 
